@@ -30,6 +30,17 @@ def overlap_recipes(rng, n, maxlen):
     return out
 
 
+def many_sets():
+    """More required sets than a byte has bits (9-11 overlapping two-character sets, plus two class flags)."""
+    out = []
+    letters = "abcdefghijklmnop"
+    for k, L, flags in ((9, 12, 0), (10, 14, 4), (11, 16, 5)):
+        sets = [[ord(letters[i]), ord(letters[i + 1])] for i in range(k)]
+        c = dict(len=L, allow=2, require=flags, exclude=0, allowChars=[], requireSets=sets, excludeChars=[])
+        out.append(dict(kind="char", char=c, maxTrials=0, failRateOne=0, mode="paths", paths=0, maxLeaves=0, tag="many-sets"))
+    return out
+
+
 def long_recipes(rng, n):
     out = []
     for _ in range(n):
@@ -55,7 +66,7 @@ def run(ctx):
     quick = ctx.tier == "quick"
     rng = random.Random(ctx.seed)
     ctx.rule = ("recipes: TLC-generated universe (3 abstract characters, every overlap pattern of up to 2 required sets, duplicates, emptied sets) + seeded "
-                "real-class recipes with 0-8 required sets (custom sets overlapping each other and the class flags, equal and nested sets), lengths 1..64, "
+                "real-class recipes with 0-8 required sets, and 9-11 overlapping ones (custom sets overlapping each other and the class flags, equal and nested sets), lengths 1..64, "
                 "+ lengths 100..5000 (count compared by 12 modular fingerprints and bit length); non-trivial = at least one required set; distinct recipes")
     ctx.model_check("MC_BigNat", "MC_BigNat.cfg", "BigNat == native arithmetic (limb base 8)", constants={"MaxV": 120 if quick else 500})
     ctx.model_check("MC_DyadicLog2", "MC_DyadicLog2.cfg", "log2 bracket: ordered, width <= 4*2^-30, exact on powers of two, known values, squares",
@@ -73,6 +84,7 @@ def run(ctx):
         scen.append(s)
     scen += overlap_recipes(rng, 300 if quick else 6000, 64)
     scen += long_recipes(rng, 16 if quick else 200)
+    scen += many_sets()
     files, cells, leaves = charfam.run_scenarios(ctx, scen, "c07", shards=vlib.NCPU)
     sf, sc_, sl = charfam.run_sequences(ctx, charfam.collision_sequences(), "c07")
     files, cells, leaves = files + sf, cells + sc_, leaves + sl
